@@ -41,14 +41,34 @@ func returnsError(b *ast.BlockStmt) bool {
 	return false
 }
 
-func isErrNotNil(e ast.Expr) bool {
+// isErrNotNil: the condition `v != nil` for the variable v that holds the error of the call
+func isErrNotNil(e ast.Expr, v string) bool {
+	if p, ok := e.(*ast.ParenExpr); ok {
+		return isErrNotNil(p.X, v)
+	}
 	be, ok := e.(*ast.BinaryExpr)
-	if !ok || be.Op != token.NEQ {
+	if !ok || be.Op != token.NEQ || v == "" {
 		return false
 	}
 	x, ok1 := be.X.(*ast.Ident)
 	y, ok2 := be.Y.(*ast.Ident)
-	return ok1 && ok2 && x.Name == "err" && y.Name == "nil"
+	if ok1 && ok2 && x.Name == "nil" {
+		x, y = y, x
+	}
+	return ok1 && ok2 && x.Name == v && y.Name == "nil"
+}
+
+// errVarOf: the variable that receives the error of a call - by Go's convention the last result; "" when it is
+// discarded or not a plain variable
+func errVarOf(lhs []ast.Expr) string {
+	if len(lhs) == 0 {
+		return ""
+	}
+	id, ok := lhs[len(lhs)-1].(*ast.Ident)
+	if !ok || id.Name == "_" {
+		return ""
+	}
+	return id.Name
 }
 
 type effect struct {
@@ -187,7 +207,7 @@ func (w *saveWalk) walk(list []ast.Stmt, roles map[string]string, outerChecked b
 		case *ast.IfStmt:
 			if as, ok := s.Init.(*ast.AssignStmt); ok && len(as.Rhs) == 1 {
 				if c, ok := as.Rhs[0].(*ast.CallExpr); ok {
-					w.call(c, isErrNotNil(s.Cond) && returnsError(s.Body), "if err := ...; err != nil { return err }", roles, outerChecked)
+					w.call(c, isErrNotNil(s.Cond, errVarOf(as.Lhs)) && returnsError(s.Body), "if err := ...; err != nil { return err }", roles, outerChecked)
 					w.noteRoles(as.Lhs, c, roles)
 				}
 			}
@@ -200,14 +220,9 @@ func (w *saveWalk) walk(list []ast.Stmt, roles map[string]string, outerChecked b
 				if c, ok := s.Rhs[0].(*ast.CallExpr); ok {
 					checked := false
 					// x, err := f(); if err != nil { return ... } as the next statement
-					assignsErr := false
-					for _, l := range s.Lhs {
-						if id, ok := l.(*ast.Ident); ok && id.Name == "err" {
-							assignsErr = true
-						}
-					}
-					if assignsErr && i+1 < len(list) {
-						if nx, ok := list[i+1].(*ast.IfStmt); ok && nx.Init == nil && isErrNotNil(nx.Cond) && returnsError(nx.Body) {
+					ev := errVarOf(s.Lhs)
+					if ev != "" && i+1 < len(list) {
+						if nx, ok := list[i+1].(*ast.IfStmt); ok && nx.Init == nil && isErrNotNil(nx.Cond, ev) && returnsError(nx.Body) {
 							checked = true
 						}
 					}
